@@ -133,6 +133,7 @@ Definition SE3 : GroupOps F := {|
   g_smallAdj := se3_smallAdj; g_generator := se3_generator; g_vee := se3_vee;
   g_bracket := fun a b => mvmul (se3_smallAdj a) b;
   g_innerweights := inner_weights_generic 6 4 se3_generator;
-  g_trandom := fun u => u
+  g_trandom := fun u => u;
+  g_grandom := fun u => firstn 3 u ++ rand_quat F (vnth u 3) (vnth u 4) (vnth u 5)
 |}.
 End SE3.
